@@ -157,6 +157,67 @@ def run_circuit(tr):
     return job
 
 
+def doc_type(x):
+    """Python type of a document, as a label the specification can compare (ExpectedType)."""
+    from tangelo.linq import Circuit
+    if isinstance(x, Circuit):
+        return "tangelo-circuit"
+    if isinstance(x, dict):
+        return "dict"
+    if isinstance(x, str):
+        return "str"
+    mod = type(x).__module__.split(".")[0]
+    return mod if mod in ("cirq", "sympy") else "%s.%s" % (type(x).__module__, type(x).__name__)
+
+
+def run_convert(tr):
+    """Export(fmt) -> direct conversion translate_circuit(doc, fmt2, source=fmt) -> Import(fmt2) (two-way targets) or
+    comparison with the direct export (cirq, sympy)."""
+    from tangelo.linq import Circuit, translate_circuit
+    fmt, fmt2, n = tr["fmt"], tr["fmt2"], tr["n"]
+    c = Circuit([gate_from_json(g) for g in tr["obj"]], n_qubits=n)
+    job = {"kind": "convert", "fmt": fmt, "fmt2": fmt2, "n": n, "gates": tr["obj"], "status": "refused", "cstatus": "none",
+           "ctype": "none", "same_direct": True, "istatus": "none", "out": {"n": 0, "gates": []}, "info": "", "writer": "tangelo"}
+    x = None
+    try:
+        if fmt == "openqasm" and not have("qiskit"):
+            if tr["cls1"] != "supported":
+                return None
+            x = render_qasm(n, tr["obj"])
+            job["writer"] = "reference"
+        else:
+            x = translate_circuit(c, fmt)
+        job["status"] = "exported"
+    except Exception as e:
+        job["info"] = "export: %s: %s" % (type(e).__name__, str(e)[:120])
+    if job["status"] == "exported":
+        try:
+            y = translate_circuit(x, fmt2, source=fmt)
+            job["cstatus"] = "converted"
+            job["ctype"] = doc_type(y)
+        except Exception as e:
+            job["cstatus"] = "refused"
+            job["info"] = "conversion: %s: %s" % (type(e).__name__, str(e)[:120])
+    if job["cstatus"] == "converted":
+        if fmt2 in ("cirq", "sympy"):
+            try:
+                direct = translate_circuit(Circuit([gate_from_json(g) for g in tr["obj"]], n_qubits=n), fmt2)
+                job["same_direct"] = bool(y == direct)
+            except Exception as e:
+                job["same_direct"] = False
+                job["info"] = "direct export raised: %s: %s" % (type(e).__name__, str(e)[:120])
+        else:
+            try:
+                c2 = translate_circuit(y, "tangelo", source=fmt2)
+                job["out"] = circ_to_json(c2)
+                job["istatus"] = "imported"
+            except Exception as e:
+                job["istatus"] = "import-raised"
+                job["info"] = "%s: %s | converted document (%s): %s" % (type(e).__name__, str(e)[:120], job["ctype"], str(y)[:160])
+    job["after"] = circ_to_json(c)
+    return job
+
+
 def run_gate(tr):
     from tangelo.linq import Gate
     g = tr["obj"][0]
@@ -205,18 +266,22 @@ def run_op(tr):
     return job
 
 
-RUNNERS = {"circuit": run_circuit, "gate": run_gate, "op": run_op}
+def run_circuit_or_convert(tr):
+    return run_circuit(tr) if tr.get("fmt2", "none") == "none" else run_convert(tr)
+
+
+RUNNERS = {"circuit": run_circuit_or_convert, "convert": run_convert, "gate": run_gate, "op": run_op}
 
 
 # ---- TLC configurations ------------------------------------------------------------------------------------------
 INVS = ["AlphabetOK", "RoundTripInv", "RefuseInv", "ExportedInv", "SupportedEnabled", "UnsupportedRefused",
-        "WidthSurvives", "ReprInv", "OpInv"]
+        "WidthSurvives", "ReprInv", "OpInv", "ConvertEnabled", "ConvertedInv"]
 
 
-def cfg(kinds, N, maxlen=1, toks="TokAll", strtoks="NoStr", mc=2, fmts="FmtAll", maxterms=1, coefs="CoefSmall", emit=True, minlen=0):
+def cfg(kinds, N, maxlen=1, toks="TokAll", strtoks="NoStr", mc=2, fmts="FmtAll", maxterms=1, coefs="CoefSmall", emit=True, minlen=0, conv="NoConv"):
     N = {1: "W1", 2: "W12", 3: "W123"}.get(N, N)
-    s = "CONSTANTS M = %d\nWidths <- %s\nMinLen = %d\nMaxLen = %d\nToks <- %s\nStrToks <- %s\nMaxCtrl = %d\nFmts <- %s\nOpFmts <- OpFmtAll\n" % (
-        M, N, minlen, maxlen, toks, strtoks, mc, fmts)
+    s = "CONSTANTS M = %d\nWidths <- %s\nMinLen = %d\nMaxLen = %d\nToks <- %s\nStrToks <- %s\nMaxCtrl = %d\nFmts <- %s\nConvTargets <- %s\nOpFmts <- OpFmtAll\n" % (
+        M, N, minlen, maxlen, toks, strtoks, mc, fmts, conv)
     s += "Kinds <- %s\nMaxTerms = %d\nCoefs <- %s\nEmit = %s\nINIT Init\nNEXT Next\n" % (
         kinds, maxterms, coefs, "TRUE" if emit else "FALSE")
     return s + "".join("INVARIANT %s\n" % i for i in INVS)
@@ -238,6 +303,10 @@ def plan(chk):
     ]
     runs.append(dict(name="singles_qasm", cfg=cfg("KCircuit", 3, 1, "TokAll", mc=1, fmts="FmtQasm"), workers=2))
     runs.append(dict(name="pairs_qasm", cfg=cfg("KCircuit", 2 if q else 3, 2, "TokSmall", mc=1, fmts="FmtQasm"), workers=2))
+    # direct conversions between external formats: Export(f1) -> Convert(f1, f2) -> Import(f2) / compare with Export(f2)
+    runs.append(dict(name="convert_singles", cfg=cfg("KCircuit", 3, 1, "TokOne", mc=2, fmts="FmtAll3", conv="ConvAll"), workers=4))
+    runs.append(dict(name="convert_pairs", cfg=cfg("KCircuit", 2 if q else 3, 2, "TokOne", mc=1, fmts="FmtAll3", conv="ConvAll", minlen=2),
+                     workers=4))
     # wide registers (widths 9..101): multi-digit qubit indices in targets and controls, many idle trailing qubits
     runs.append(dict(name="wide_singles", cfg=cfg("KCircuit", "WWide", 1, "TokOne", mc=1 if q else 2, fmts="FmtAll3"), workers=4))
     if q:   # two controls with multi-digit indices: only IonQ has them
@@ -305,6 +374,22 @@ def negative_controls(jobs, verdicts):
             c = add(j, "accepted-unsupported-altered")
             c["status"], c["istatus"] = "exported", "imported"
             c["out"] = {"n": j["n"], "gates": [dict(g, name="X", c=[], p=-1) for g in j["gates"]]}
+        elif k == "convert" and verdicts[j["id"]] == "ok" and j["gates"]:
+            two_way = j["fmt2"] not in ("cirq", "sympy")
+            for what in ("type", "conversion-refused", "target", "direct"):
+                tag = (k, what)
+                if tag in done or (what == "target" and not two_way) or (what == "direct" and two_way):
+                    continue
+                done.add(tag)
+                c = add(j, what)
+                if what == "type":
+                    c["ctype"] = "tangelo-circuit"
+                elif what == "conversion-refused":
+                    c["cstatus"] = "refused"
+                elif what == "target":
+                    c["out"]["gates"][0]["t"] = [x + 1 for x in c["out"]["gates"][0]["t"]]
+                else:
+                    c["same_direct"] = False
         elif k == "gate":
             g0 = j["g"]
             for what in ("name", "target", "control", "param", "variational", "eval-raised"):
@@ -362,6 +447,19 @@ def key_of(j, v, bad_tight):
         if len(j["gates"]) == 1:
             return "%s:gate:%s:%s" % (fmt, gclass(j["gates"][0]), v)
         return "%s:%s:interaction" % (fmt, v)
+    if k == "convert":
+        # a gate class that already fails alone in the plain round trip of one of the two formats keeps that key
+        alias = {"CNOT": "CX", "CX": "CNOT"}
+        for f in (j["fmt"], j["fmt2"]):
+            for g0 in j["gates"]:
+                # (an importer may hand the gate on under its documented alias: IonQ reads every controlled X as CX)
+                cands = [g0] + ([dict(g0, name=alias[g0["name"]])] if g0["name"] in alias else [])
+                for g in [x for x in cands if (f, gclass(x)) in bad_tight][:1]:
+                    return "%s:gate:%s:%s" % (f + ("-import" if f == "openqasm" and j.get("writer") == "reference" else ""), gclass(g), v)
+        pair = "%s>%s" % (j["fmt"], j["fmt2"])
+        if len(j["gates"]) == 1:
+            return "convert:%s:gate:%s:%s" % (pair, gclass(j["gates"][0]), v)
+        return "convert:%s:%s" % (pair, v)
     if k == "gate":
         g = j["g"]
         return "repr:%s:%s%s" % (v, gclass(g), ":str" if g["p"] >= 100 else "")
@@ -384,17 +482,17 @@ def run(chk):
         chk.part("S_" + spec["name"], emitted=len(t))
         trs += t
     # vacuity control: every action of the state machine was taken
-    cov = tlc.run("C17RoundTrip", cfg("KAll", 2, 1, "TokSmall", strtoks="StrAll", mc=1, maxterms=1, emit=False),
+    cov = tlc.run("C17RoundTrip", cfg("KAll", 2, 1, "TokSmall", strtoks="StrAll", mc=1, maxterms=1, emit=False, conv="ConvAll"),
                   "c17/coverage", workers=2, coverage=True)
     counts = cov.coverage_counts()
-    need = ["AddGateStep", "ExportOK", "Refuse", "Import", "ReprStep", "AddTermStep", "OpRoundTrip"]
+    need = ["AddGateStep", "ExportOK", "Refuse", "Import", "ConvertStep", "ConvertRefuseStep", "ReprStep", "AddTermStep", "OpRoundTrip"]
     chk.part("coverage", **{a: counts.get(a, (0, 0))[1] for a in need})
     if any(counts.get(a, (0, 0))[1] == 0 for a in need):
         raise tlc.TLCError("vacuity: an action of C17RoundTrip was never taken: %s" % counts)
     # deduplicate inputs (simulation repeats short behaviours)
     seen, uniq = set(), []
     for t in trs:
-        k = (t["kind"], t["fmt"], t["n"], t["style"], repr(t["obj"]))
+        k = (t["kind"], t["fmt"], t.get("fmt2", "none"), t["n"], t["style"], repr(t["obj"]))
         if k not in seen:
             seen.add(k)
             uniq.append(t)
@@ -419,7 +517,7 @@ def run(chk):
     any_bad = any(verdicts[j["id"]] not in OK_VERDICTS | DRIFT_VERDICTS for j in jobs
                   if not (j["kind"] == "circuit" and j["fmt"] == "projectq" and any(g["name"] == "MEASURE" for g in j["gates"])))
     # (too few controls is a vacuity alarm on a healthy tree only)
-    if accepted or (len(ctl) < 15 and not any_bad):
+    if accepted or (len(ctl) < 19 and not any_bad):
         raise tlc.TLCError("binding failure: corrupted records accepted %s (controls built: %d)" % (accepted, len(ctl)))
     for r in results:
         chk.add_tlc(r)
@@ -432,7 +530,7 @@ def run(chk):
     stat = {}
     for j in jobs:
         v = verdicts[j["id"]]
-        part = "%s_%s" % (j["kind"], j.get("fmt", "repr"))
+        part = "%s_%s" % (j["kind"], j.get("fmt", "repr") + (">" + j["fmt2"] if j["kind"] == "convert" else ""))
         chk.add_traces(1, part)
         stat.setdefault(part, {}).setdefault(v, 0)
         stat[part][v] += 1
@@ -479,13 +577,16 @@ def run(chk):
         "-7.5, int 1, 1e-07, 123456.789, 2pi, int 3 ('theta' for repr) and maps returned values back by exact equality",
         "controls are compared as sets, targets as sequences, CNOT == CX; the is_variational flag is not part of circuit "
         "equality for external formats (no format can carry it) but is part of eval(repr(g))",
-        "Supported[fmt] is taken from the translators' documented dictionaries; Tangelo 'CX' is optional for projectq",
+        "Supported[fmt] is taken from the translators' documented dictionaries; Tangelo 'CX' (alias of CNOT) counts as supported by projectq",
+        "direct conversions: cirq / sympy documents are compared with the direct export by the packages' own == (recorded boolean)",
         "OpenQASM / qiskit / braket / projectq-operator / qulacs / pennylane round trips are NOT exercised (packages absent)",
         "sympy Symbol / callable parameters are outside the repr alphabet (eval would need the symbol in scope)",
     ]
 
 
 def summary(j):
+    if j["kind"] == "convert":
+        return "%s -> %s n=%d %s" % (j["fmt"], j["fmt2"], j["n"], [(g["name"], g["t"], g["c"], g["p"]) for g in j["gates"]])
     if j["kind"] == "circuit":
         return "%s n=%d %s" % (j["fmt"], j["n"], [(g["name"], g["t"], g["c"], g["p"]) for g in j["gates"]])
     if j["kind"] == "gate":
@@ -496,13 +597,14 @@ def summary(j):
 def replay(chk, rec):
     case = rec["case"]
     kind = case["kind"]
-    tr = {"kind": kind, "fmt": case.get("fmt", "repr"), "n": case.get("n", 0), "style": case.get("style", "list"), "cls": "supported",
-          "obj": case["gates"] if kind == "circuit" else ([case["g"]] if kind == "gate" else case["terms"])}
+    tr = {"kind": kind, "fmt": case.get("fmt", "repr"), "fmt2": case.get("fmt2", "none"), "n": case.get("n", 0),
+          "style": case.get("style", "list"), "cls": "supported", "cls1": "supported",
+          "obj": case["gates"] if kind in ("circuit", "convert") else ([case["g"]] if kind == "gate" else case["terms"])}
     j = RUNNERS[kind](tr)
     j["id"] = 1
     verdicts, _ = tlc.judge("C17Trace", [j], "c17/replay", {"M": M})
     print("input:", summary(j))
-    print("observed: status=%s %s out=%s" % (j["status"], j.get("istatus", ""), j["out"]))
+    print("observed: status=%s %s %s out=%s" % (j["status"], j.get("cstatus", "") + "/" + j.get("ctype", ""), j.get("istatus", ""), j["out"]))
     print("info:", j.get("info"))
     print("TLC verdict:", verdicts[1])
     return verdicts[1] in OK_VERDICTS | DRIFT_VERDICTS
